@@ -787,6 +787,7 @@ impl World for FwdWorld {
                         Some(f) => f,
                         None => return Err(viol("actions.facts", site, "fact-object-damaged", "F.x / F.y / F.z are no longer integers".into(), step)),
                     };
+                    obs.fp_str(&format!("{trace:?}|{}|{}|{fvals:?}", result.cycle_count, result.rules_fired));
                     let observed = Outcome { fired: trace.clone(), cycle_count: result.cycle_count, rules_fired: result.rules_fired, active: engine.get_active_agenda_group().to_string(), facts: fvals };
                     // predictions of every state still alive, for every admissible instant
                     let mut all: Vec<(MState, Outcome)> = Vec::new();
